@@ -52,7 +52,7 @@ func genAgg(r *Rng, tier string) *Enc {
 		n = r.Range(4, 12)
 	}
 	if r.Intn(80) == 0 {
-		n = Pick(r, []int{1025, 1027, 2050, 4099}) // beyond plausible chunking thresholds, not a multiple of 4
+		n = Pick(r, []int{1025, 1027, 2050, 4099, 4096, 8192, 1024}) // at and around plausible chunking thresholds
 	}
 	for _, name := range []string{"a", "b", "stat"}[:ncols] {
 		nan := r.Chance(30)
